@@ -302,6 +302,31 @@ Proof. exact check_height_within_period_proof. Qed.
 Print Assumptions check_height_within_period.
 
 
+(** 16. Bounded-time jailing over blocks.  In every history that contains an end-block, above height
+    50: a validator that is due (bonded / unbonding, unjailed, keep-alive expired or never sent, already
+    unjailed at the previous block, last grace period over) is — if nothing but blocks follows,
+    whatever the block times — jailed or exempt by the network-protection rules at the liveness check
+    that comes within the next 10 blocks. *)
+Theorem silent_validator_settled_within_period :
+  forall (version : Type) (vlt : version -> version -> bool)
+         (h0 t0 : Z) (legacy : option (list Z)) (m : version) (ops1 : list (op version)) (dh0 dt0 : Z)
+         (ops2 : list (op version)) (v : val) (dts : list Z),
+  let s := run vlt (ops1 ++ EndBlock dh0 dt0 :: ops2) (init h0 t0 legacy m) in
+  Gen.C12.check_after < height s ->
+  In v (vals s) -> eligible_status (v_status v) = true -> v_jailed v = false ->
+  (forall u, lookup (v_addr v) (alive s) = Some u -> u <= height s) ->
+  In (v_addr v) (prev_unjailed s) ->
+  (forall g, lookup (v_addr v) (grace s) = Some g -> Gen.C12.grace_period < height s - g) ->
+  Z.of_nat (List.length dts) = Gen.C12.check_period ->
+  exists k, (k < List.length dts)%nat /\
+    let sk := run vlt (map (EndBlock 1) (firstn k dts)) s in
+    is_check_height (height sk) = true /\
+    exists v', find_val (v_addr v) (vals (step vlt sk (EndBlock 1 (nth k dts 0)))) = Some v' /\
+               (v_jailed v' = true \/ protected (vals (step vlt sk (EndBlock 1 (nth k dts 0)))) v').
+Proof. exact silent_validator_settled_within_period_proof. Qed.
+Print Assumptions silent_validator_settled_within_period.
+
+
 (* --- source translation tie (GenFn) --- *)
 (* The Go function bodies named below are re-translated from the source on every check
    (harness/cmd/extract/gotrans*.go -> GenFn/*.v, semantics of the Go subset: Trans/GoSem.v).
